@@ -45,7 +45,7 @@ def plan(tier, seed):
 def mandatory_bins(tier):
     b = ["curve_roundtrip", "pub_raw", "pub_uncompressed", "pub_compressed", "pub_hybrid", "pub_der_named", "pub_der_explicit", "pub_pem", "priv_raw", "priv_sec1_named", "priv_sec1_explicit",
          "priv_pkcs8_named", "priv_pkcs8_explicit", "priv_pem", "openssl_parses_library_output", "library_parses_openssl_output", "byte_equal_spki", "byte_equal_sec1", "leading_zero_coordinate",
-         "leading_zero_scalar", "small_scalar", "p256_header", "raw_fmt_inverse", "reencode_after_decode", "bec2_raw_key_wrong_length", "all_prefixes", "appended_suffix", "single_byte_mutations", "pem_cut", "openssl_compressed_spki", "openssl_explicit_params"]
+         "leading_zero_scalar", "small_scalar", "p256_header", "raw_fmt_inverse", "reencode_after_decode", "bec2_raw_key_wrong_length", "bec2_der_input_in_non_canonical_form", "all_prefixes", "appended_suffix", "single_byte_mutations", "pem_cut", "openssl_compressed_spki", "openssl_explicit_params"]
     return b
 
 
@@ -383,6 +383,26 @@ def run_bec2(ns, ctx, spec):
                 ctx.violation("bec2_raw_key_of_wrong_length_accepted", {"len": len(bad), "first": bad[:1], "gives_raw_len": len(kb.to_raw_bin_fmt())}, rp)
             except Exception as e:
                 ctx.exc(e)
+        # the same key in the other DER forms OpenSSL writes (compressed / hybrid point, explicit curve parameters): whatever the
+        # DER input looked like, the raw form is X|Y and the DER form written is the canonical header + X|Y
+        for form, explicit, fname in ((ossl.POINT_COMPRESSED, False, "compressed"), (ossl.POINT_HYBRID, False, "hybrid"), (ossl.POINT_UNCOMPRESSED, True, "explicit"), (ossl.POINT_COMPRESSED, True, "explicit_compressed"))[i % 2 :: 2]:
+            alt = ossl.pub_to_spki("prime256v1", pub, form, explicit)
+            ctx.ev()
+            ctx.bin("bec2_der_input_in_non_canonical_form")
+            try:
+                k3 = C.create_public_ecc_key_from_der_fmt(alt)
+            except Exception as e:
+                ctx.exc(e)  # refusing such input is not judged here (C19's decoders are judged on the ecdsa API)
+                continue
+            try:
+                r3, d3 = k3.to_raw_bin_fmt(), k3.to_der_fmt()
+            except Exception as e:
+                ctx.violation("bec2_raw_der_conversion_raises", {"exc": fmt_exc(e), "der_input_form": fname}, rp)
+                continue
+            if r3 != raw:
+                ctx.violation("bec2_raw_form_of_key_loaded_from_non_canonical_der_is_not_x_y", {"der_input_form": fname, "raw_len": len(r3)}, dict(rp, form=fname))
+            elif d3 != ospki and d3[len(d3) - 64 :] != raw:
+                ctx.violation("bec2_der_of_key_loaded_from_non_canonical_der", {"der_input_form": fname}, dict(rp, form=fname))
         priv = P.PrivateEccKeyProxy.create_from_der_fmt(ecies.sec1_der(d))
         if priv.public_key.to_raw_bin_fmt() != raw:
             ctx.violation("bec2_private_key_from_openssl_sec1_gives_other_public_key", {}, rp)
